@@ -9,7 +9,8 @@
      <frame>  none | order | r:<bound> | b:<bound>:<bound>      bound: up p<n> c f<n> uf
      <nsort>  number of ORDER BY items (sort cells per row; 0 without ORDER BY)
      <row>    id keyid sortcell{nsort} argcell      in the order of the (sorted) view
-   answer:   the new column in row-id order, comma separated (`E` = the function rejects its argument)
+   answer:   the new column in row-id order, comma separated (`E` = the function rejects its argument,
+             `FATAL` = windowValues panics on an inverted frame)
 -/
 import Csvq.Model.Proto
 import Csvq.Model.Analytic
@@ -94,9 +95,9 @@ def exec (fn : String) (a1 : Option Int) (a2 : Option Val) (ign : Bool) (w : Win
   | "nth_value" => a1.bind fun n => (nthValue cells ign n w p).map valRes
   | "lag" => some (valRes (lag cells ign (a2.getD .null) (a1.getD 1) p))
   | "lead" => some (valRes (lead cells ign (a2.getD .null) (a1.getD 1) p))
-  | "cells" => some (aggOver cells (fun _ vs => Res.l vs) w p)
-  | "count" => some (aggOver cells (fun _ vs => Res.v (.int (vs.filter (fun v => !isNullV v)).length)) w p)
-  | "count_star" => some (aggOver cells (fun _ vs => Res.v (.int vs.length)) w p)
+  | "cells" => aggOver cells (fun _ vs => Res.l vs) w p
+  | "count" => aggOver cells (fun _ vs => Res.v (.int (vs.filter (fun v => !isNullV v)).length)) w p
+  | "count_star" => aggOver cells (fun _ vs => Res.v (.int vs.length)) w p
   | "listagg" => some (listAggOver cells (fun vs => Res.l (vs.filter (fun v => !isNullV v))) p)
   | _ => none
 
@@ -116,7 +117,9 @@ def c17 (fn : String) (args : List String) : String :=
         let keys := rows.map Row.key
         let parts := partitionsOf keys
         match parts.mapM (fun part => exec fn a1 a2 ign w eqv cells part.2) with
-        | none => if (exec fn a1 a2 ign w eqv cells []).isNone && parts.isEmpty then bad else "E"
+        | none =>
+          if (exec fn a1 a2 ign w eqv cells []).isNone && parts.isEmpty then bad
+          else if fn = "cells" || fn = "count" || fn = "count_star" then "FATAL" else "E"
         | some _ =>
           let col := analyze (fun p => (exec fn a1 a2 ign w eqv cells p).getD []) keys
           let out : Array String := Array.replicate rows.length "?"
